@@ -120,7 +120,10 @@ def weave_region(repo, header, lines, start_line, tmpl_name, report):
                                 'token_sha': '', 'identical_to_annotated_baseline': False, 'normalisations': [], 'transplanted_hunks': [],
                                 'template': '%s:%d' % (tmpl_name, start_line), 'anchor_lost': str(e),
                                 'obligation': '::'.join(x for x in (stem, typ, name) if x)})
-        # keep signature + contract, drop the body (it may use loop ghost state that does not exist in an assumed fn)
+        # keep signature + contract, drop the body (it may use loop ghost state that does not exist in a stub).  The stub
+        # stays an ordinary exec fn whose body is `assume(false); unreached()`: marking it external_body instead changes
+        # the order in which Verus processes trait-impl axioms and made UNRELATED obligations fail (Identifier::cmp, met
+        # in the build).  The obligation of the stubbed function is reported undecided, never discharged.
         depth, cut = 0, None
         for idx, el in enumerate(elems):
             if el.kind != 'tok' or el.deleted:
@@ -133,7 +136,15 @@ def weave_region(repo, header, lines, start_line, tmpl_name, report):
                 cut = idx
                 break
         head = elems[:cut] if cut is not None else elems
-        return '// ---- ANCHOR LOST (body assumed, obligation undecided): %s\n#[verifier::external_body]\n' % str(e).replace('\n', ' ')[:300] + emit(head).lstrip('\n') + '\n    { unimplemented!() }\n'
+        sig = emit(head)
+        tag = '// ---- ANCHOR LOST (body not verified, obligation undecided): %s\n' % str(e).replace('\n', ' ')[:300]
+        if re.search(r'->[^{;]*\bimpl\b', sig):
+            # opaque return type: a diverging stub does not type-check; keep the real (erased) body as external code
+            body = [el for el in (elems[cut:] if cut is not None else []) if el.kind == 'tok']
+            for el in body:
+                el.deleted = False
+            return tag + '#[verifier::external_body]\n' + sig.lstrip('\n') + emit(body) + '\n'
+        return tag + sig.lstrip('\n') + '\n    { proof { assume(false); } vstd::pervasive::unreached() }  // STUB\n'
 
 
 def _weave_region(repo, header, lines, start_line, tmpl_name, report):
@@ -169,6 +180,34 @@ def _weave_region(repo, header, lines, start_line, tmpl_name, report):
             i += 1
     if Etxt != Rtxt:
         sm = difflib.SequenceMatcher(a=Etxt, b=Rtxt, autojunk=False)
+        # a local that was renamed consistently (old name gone from the item, new name fresh) is renamed in the
+        # annotations of the item as well: contracts talk about the code's variables, a rename is not a change of behaviour
+        ren, bad_ren = {}, set()
+        for tag, i1, i2, j1, j2 in sm.get_opcodes():
+            if tag == "replace" and i2 - i1 == j2 - j1:
+                for a_, b_ in zip(Etxt[i1:i2], Rtxt[j1:j2]):
+                    if a_ != b_ and rustlex.IDENT.fullmatch(a_) and rustlex.IDENT.fullmatch(b_):
+                        if ren.get(a_, b_) != b_:
+                            bad_ren.add(a_)
+                        ren[a_] = b_
+        def free_occ(seq, name):
+            # occurrences that are not a field / method name (`x.name`)
+            return [k for k, t in enumerate(seq) if t == name and not (k > 0 and seq[k - 1] == ".")]
+        ren = {a_: b_ for a_, b_ in ren.items() if a_ not in bad_ren and not free_occ(Rtxt, a_) and not free_occ(Etxt, b_)
+               and a_ not in ("self", "Self") and b_ not in ("self", "Self")}
+        if ren:
+            prev = None
+            for e in elems:
+                if e.kind == "ins":
+                    for a_, b_ in ren.items():
+                        e.text = re.sub(r"(?<![A-Za-z0-9_.])%s(?![A-Za-z0-9_])" % re.escape(a_), b_, e.text)
+                else:
+                    if e.text in ren and not (prev is not None and prev.text == "."):
+                        e.text = ren[e.text]          # visible and hidden exec tokens alike
+                    prev = e
+            rec["renamed_locals"] = ren
+            Etxt = [e.text for e in E]
+            sm = difflib.SequenceMatcher(a=Etxt, b=Rtxt, autojunk=False)
         # position of each exec token in elems
         pos = [k for k, e in enumerate(elems) if e.kind == "tok"]
         # size of every hidden region
